@@ -183,6 +183,18 @@ fn build(c: &Case) -> Result<Built, String> {
         if let Some(t) = w.payment_newest(p, &k2, &key(5).public, 70 + i as u64, 0, ts) {
             txs.push(t);
         }
+        // and the oldest output K2 may still spend in this block (created g or g-1 blocks back where
+        // there is one): admissible here, no longer admissible one or two blocks later -- a block
+        // that is wound back after a failed attempt must be judged at its own height
+        {
+            let g = w.cfg.consensus.genesis_period;
+            let taken: Vec<_> = txs.iter().flat_map(|t| t.from.iter().map(|s| s.get_utxoset_key())).collect();
+            if let Some(o) = w.ledgers[p].unspent_of(&k2.public).into_iter().filter(|s| s.block_id + g >= id && s.amount >= 500 && !taken.contains(&s.get_utxoset_key())).min_by_key(|s| (s.block_id, s.tx_ordinal, s.slip_index)) {
+                if o.block_id + g <= id + 1 {
+                    txs.push(crate::node::make_tx(&[o.clone()], &[(key(5).public, o.amount)], &k2, ts, b"oldest"));
+                }
+            }
+        }
         let gt = if id % 2 == 0 { Some(key(0)) } else { None };
         let b = w.build(p, ts, gt, txs, &format!("O{}", i + 1))?;
         old.push(b);
